@@ -117,6 +117,12 @@ def file_name(k):
     return "src/lib.rs" if k == 0 else ("src/m%d.rs" % k if k % 2 else "src/sub/deep/m%d.rs" % k)
 
 
+def fname(spec, k):
+    """relative path of file k of a graph spec: spec["paths"][k] when given (directory layout dimension), else file_name(k)"""
+    ps = spec.get("paths")
+    return ps[k] if ps and k < len(ps) and ps[k] else file_name(k)
+
+
 NOISE_ATTRS = ["/// documentation comment of the item", "#[allow(dead_code)]", "#[cfg_attr(test, allow(unused))]",
                "#[serde(deny_unknown_fields)]", "#[doc = \"attribute form\"]", "#[non_exhaustive]"]
 
@@ -170,15 +176,16 @@ def shaped(it, shape):
 def build(spec):
     """graph spec -> projgen case"""
     nfiles = spec.get("nfiles", 1)
-    items = {file_name(k): [] for k in range(nfiles)}
+    items = {fname(spec, k): [] for k in range(nfiles)}
+    assert len(items) == nfiles, "paths of a spec must be distinct"
     types = spec["types"]
     if spec.get("alias"):
         for k in range(nfiles):
-            items[file_name(k)].append({"kind": "raw", "text": "pub type Result<T> = std::result::Result<T, String>;"})
+            items[fname(spec, k)].append({"kind": "raw", "text": "pub type Result<T> = std::result::Result<T, String>;"})
     inline = {}                      # file -> [(text, sx)] of definitions placed in an inline module
     fnames = spec.get("field_names") or FIELD_NAMES
     for i, t in enumerate(types):
-        f = file_name(t.get("file", 0))
+        f = fname(spec, t.get("file", 0))
         name, kind = t["name"], t["kind"]
         if t.get("inline") and kind in ("struct", "unit"):
             fields = []
@@ -236,7 +243,7 @@ def build(spec):
             if t.get("attr_shape") is not None:
                 items[f][-1] = shaped(items[f][-1], t["attr_shape"])
     for raw in spec.get("raw_items", []):            # decoy mentions in non-root positions: aliases, impl blocks, consts
-        items[file_name(raw[0])].append({"kind": "raw", "text": raw[1]})
+        items[fname(spec, raw[0])].append({"kind": "raw", "text": raw[1]})
     for f, defs_ in inline.items():
         body = "\n".join("    " + ln for text, _ in defs_ for ln in text.split("\n"))
         items[f].append({"kind": "raw",
@@ -286,12 +293,24 @@ def build(spec):
                         body.append({"emit": ename, "recv": "app", "payload": expr, "c07": ["var", v]})
             if need_app or c.get("app"):
                 params.insert(0, {"name": "app", "ty": P("AppHandle", segs=["tauri"])})
-            fitems = items[file_name(c.get("file", 0))]
+            fitems = items[fname(spec, c.get("file", 0))]
             (fitems.insert if c.get("first") else (lambda _i, x: fitems.append(x)))(0, {
                 "kind": "fn", "name": c["name"], "attrs": [["tauri", "command"] if len(c["name"]) % 2 else ["command"]] if is_cmd else [],
                 "async": bool(len(c["name"]) % 3 == 0), "vis": "pub", "params": params, "ret": ret, "body": body})
     cfg = {"typeMappings": dict(spec["type_mappings"])} if spec.get("type_mappings") else {}
-    return {"files": items, "config": cfg}
+    case = {"files": items, "config": cfg}
+    # files below directories the tool must not scan (exactly target/ and .git/ at any depth): written to disk, but no
+    # part of the project the model and the specification see
+    hidden = []
+    for rel, text in spec.get("excluded_files", []):
+        assert rel not in items
+        items[rel] = [{"kind": "raw", "text": text}]
+        hidden.append(rel)
+    if hidden:
+        case["c07_hidden"] = hidden
+    if spec.get("under"):
+        case["under"] = spec["under"]            # the project path handed to the CLI (default proj)
+    return case
 
 
 def sx_mapping(spec):
@@ -317,18 +336,20 @@ def sx_item(it):
 
 
 def sx_project(case):
-    return [[rel, [sx_item(i) for i in case["files"][rel]]] for rel in sorted(case["files"])]
+    hidden = set(case.get("c07_hidden", []))
+    return [[rel, [sx_item(i) for i in case["files"][rel]]] for rel in sorted(case["files"]) if rel not in hidden]
 
 
 def run_cli(case, modes=("none", "zod"), tag="c07", reps=1):
     """Run the real CLI on the project; returns {mode: [types.ts text or None, ...]} (one per fresh process)."""
     out = {}
     with vlib.Sandbox(tag) as sb:
-        projgen.write_project(sb, case)
+        under = case.get("under", "proj")
+        projgen.write_project(sb, case, under=under)
         for mode in modes:
             texts = []
             for r in range(reps):
-                res = projgen.generate(sb, case, mode, out="out-%s-%d" % (mode, r), write=False)
+                res = projgen.generate(sb, case, mode, out="out-%s-%d" % (mode, r), under=under, write=False)
                 texts.append(res["files"].get("types.ts") if res["status"] == 0 else None)
             out[mode] = texts
     return out
@@ -891,3 +912,97 @@ def edit_histories():
         hs.append([v([[0, 1, ctx], [1, 2, "vec"]]), v([[0, 1, ctx]]), v([[2, 1, "option"], [0, 1, ctx]])])   # removed, then reversed
         hs.append([v([[0, 1, ctx]]), v([[0, 2, ctx]]), v([[2, 0, ctx]])])                    # retargeted, then reversed
     return hs
+
+
+# ------------------------------------------------------------------ directory layout (near-misses of the excluded names)
+# directory names that are NOT the excluded names target / .git but share a prefix, suffix, infix or the letters in another case
+NEAR_MISS_DIRS = ["targets", "target_kinds", "target-tauri", "target_wasm", "targeting", "target2", "target.d", "target.rs", "target.",
+                  "mytarget", "my_target", "xtarget", "sub-target-x", ".target", "Target", "TARGET", "tarGet", "targe", "arget", "target 2",
+                  ".github", ".gitignore.d", ".gitx", ".git_", ".git.", ".git2", "x.git", "repo.git", "a.git.b", ".Git", ".GIT", "git", "_git",
+                  ".gi", "dot.git.d"]
+# file names (not directories) equal to an excluded name plus the extension
+NEAR_MISS_FILES = ["target.rs", ".git.rs", "src/target.rs", "src/.git.rs", "src/sub/target.rs", "targets.rs", "src/Target.rs"]
+DEPTH_TEMPLATES = ["%s/m.rs", "src/%s/m.rs", "src/%s/mod.rs", "src/a/%s/b/m.rs", "%s/%s/m.rs", "src/%s/sub/deep/m.rs", "src/x/y/z/%s/m.rs"]
+EXCLUDED_TEMPLATES = ["target/debug/build/gen.rs", ".git/hooks/x.rs", "src/target/m.rs", "src/sub/.git/y.rs", "src/a/target/b/c.rs",
+                      "target/targets/z.rs", "src/targets/target/w.rs"]
+GHOST = ("use serde::{Deserialize, Serialize};\n#[derive(Serialize, Deserialize)]\npub struct Ghost%d { pub id: i32, pub inner: GhostInner%d }\n"
+         "#[derive(Serialize, Deserialize)]\npub struct GhostInner%d { pub id: i32 }\n"
+         "#[tauri::command]\npub fn ghost_cmd%d(a: Ghost%d) -> Ghost%d { a }\n")
+
+
+def near_path(d, k):
+    t = DEPTH_TEMPLATES[k % len(DEPTH_TEMPLATES)]
+    return t % ((d,) * t.count("%s"))
+
+
+def layout_spec(paths, role, excluded=(), under=None, tag="layout"):
+    """files: 0 = paths[0] (default src/lib.rs), 1 and 2 = the paths under test, 3 = an ordinary file.
+    role root: the root type and its child are defined in files 1 / 2, the command elsewhere;
+    role inner: Holder (file 0) -> Mid (file 1) -> Leaf (file 2), and Via (file 3) -> Deep (file 1);
+    role cmd: the commands and a helper emitting an event are in files 1 / 2, every type elsewhere or next to them"""
+    T = lambda n, f, kind="struct": {"name": n, "kind": kind, "derives": list(SD2), "file": f}
+    if role == "root":
+        types = [T("BuildTarget", 1), T("Profile", 2), T("TargetKind", 2, "enum"), T("BuildPlan", 0), T("Unused", 1)]
+        edges = [[0, 1, "vec"], [0, 2, "option"], [3, 0, "map_value"]]
+        cmds = [{"name": "list_targets", "file": 0, "roots": [["ret", 0, "result_ok"]]},
+                {"name": "plan", "file": 3, "roots": [["param", 2, "direct"], ["ret", 3, "direct"]]}]
+        helpers = []
+    elif role == "inner":
+        types = [T("Holder", 0), T("Mid", 1), T("Leaf", 2), T("Via", 3), T("Deep", 1), T("Unused", 2)]
+        edges = [[0, 1, "opt_vec"], [1, 2, "map_value"], [3, 4, "tuple_last"]]
+        cmds = [{"name": "use_it", "file": 0, "roots": [["param", 0, "direct"], ["channel", 3, "direct"]]}]
+        helpers = []
+    else:
+        types = [T("Request", 0), T("Reply", 3), T("ReplyPart", 1), T("Progress", 3), T("Step", 0), T("Unused", 3)]
+        edges = [[1, 2, "vec"], [3, 4, "option"]]
+        cmds = [{"name": "handle_it", "file": 1, "roots": [["param", 0, "direct"], ["ret", 1, "result_ok"]]},
+                {"name": "ping_it", "file": 0, "roots": []}]
+        helpers = [{"name": "notify_it", "file": 2, "roots": [["event", 3, "ref"]]}]
+    ps = list(paths) + [None] * (4 - len(paths))
+    spec = {"types": types, "edges": edges, "cmds": cmds, "helpers": helpers, "nfiles": 4, "alias": False, "paths": ps,
+            "shape": tag + "-" + role, "acyclic": True, "clean": True, "naming": "plain"}
+    if excluded:
+        spec["excluded_files"] = [[rel, GHOST % ((i,) * 6)] for i, rel in enumerate(excluded)]
+    if under:
+        spec["under"] = under
+    return spec
+
+
+def layout_specs():
+    """types and commands defined below directories whose names are near-misses of the excluded target / .git (prefix,
+    suffix, infix, case variants) at several depths, files named target.rs / .git.rs, a project path that itself lies below
+    target/ or .git/, and controls: files below directories called exactly target / .git define ghost commands and types
+    that must stay out"""
+    specs = []
+    roles = ["root", "inner", "cmd"]
+    for i, d in enumerate(NEAR_MISS_DIRS):
+        d2 = NEAR_MISS_DIRS[(i + 7) % len(NEAR_MISS_DIRS)]
+        for v in range(2):
+            k = 2 * i + v
+            specs.append(layout_spec([None, near_path(d, k), near_path(d2, k + 3)], roles[k % 3]))
+    for i, f in enumerate(NEAR_MISS_FILES):
+        g = NEAR_MISS_FILES[(i + 3) % len(NEAR_MISS_FILES)]
+        specs.append(layout_spec([None, f, g], roles[i % 3], tag="layout-file"))
+        specs.append(layout_spec([f, g, "src/m2.rs"], roles[(i + 1) % 3], tag="layout-file"))
+    for i, u in enumerate(["target", "target/app", ".git/x", "targets", "w/target/src-tauri", "proj/.git"]):
+        specs.append(layout_spec([None, "src/m1.rs", near_path(NEAR_MISS_DIRS[i], i)], roles[i % 3], under=u, tag="layout-under"))
+    for i in range(len(EXCLUDED_TEMPLATES)):
+        ex = [EXCLUDED_TEMPLATES[i], EXCLUDED_TEMPLATES[(i + 2) % len(EXCLUDED_TEMPLATES)]]
+        specs.append(layout_spec([None, near_path(NEAR_MISS_DIRS[3 * i], i), "src/m2.rs"], roles[i % 3], excluded=ex, tag="layout-excluded"))
+    return specs
+
+
+def assign_paths(spec, rng):
+    """random projects: move some files of a multi-file spec below near-miss directories / to near-miss file names"""
+    n = spec.get("nfiles", 1)
+    ps, used = [None] * n, {file_name(k) for k in range(n)}
+    for k in range(n):
+        if rng.random() < 0.6:
+            for _ in range(5):
+                cand = rng.choice(NEAR_MISS_FILES) if rng.random() < 0.15 else near_path(rng.choice(NEAR_MISS_DIRS), rng.randrange(7)).replace("/m.rs", "/m%d.rs" % k)
+                if cand not in used:
+                    ps[k] = cand
+                    used.add(cand)
+                    break
+    spec["paths"] = ps
+    return spec
